@@ -94,6 +94,8 @@ register(PropertySpec(
              "(shared with C04) every evaluation of a quantifier resets the duplicate-suppression state below it first: a suspended earlier iterator of the same query must not hide rows"),
         Rule("VALUE-IDENTITY", _lazy("extra", "rule_value_identity"), 8,
              "(shared with C20) a domain of distinct objects stays distinct: the identifier of a wrapped value is its identity, and an identifier carried in _id_ is believed only of the package's own expressions"),
+        Rule("HOOK-SELF", _lazy("subquery", "rule_hook_self"), 3,
+             "(shared with C15) the attribute hook builds a new node per mention: one memoised attribute node would be negated in place for every mention at once"),
     ],
     explanation="Decides the clause 'the condition vocabulary denotes the ordinary Python operator': the node each "
                 "public comparison/membership entry constructs (arguments mapped to dataclass fields through the MRO "
@@ -153,6 +155,8 @@ register(PropertySpec(
              "the duplicate trackers for true and for false rows of a node are two objects wherever the by-truth mapping is built"),
         Rule("REPLAY-FALSE-ASKED", _lazy("cacheidx", "rule_replay_false_asked"), 5,
              "(shared with C05) a replay from a result cache hands on the false rows exactly when the evaluation it answers asked for them (below a negation every row of the original is a false row)"),
+        Rule("HOOK-SELF", _lazy("subquery", "rule_hook_self"), 3,
+             "(shared with C15) the attribute hook builds a new node per mention: not_(x.flag) must not invert the other bare uses of x.flag"),
     ],
     explanation="Negation is a rewrite at construction time, so it is a function on syntax and is decided from the "
                 "source: the inverse-operator table is extracted by abstract evaluation of the setter's CFG (match / if "
@@ -229,6 +233,10 @@ register(PropertySpec(
              "the mode-off switch of an evaluation also sets the expression context (open `with <query>` blocks) aside, so user code that builds a query during evaluation is not bound to the enclosing block's query"),
         Rule("STACK-READ-LIVE", _lazy("modes", "rule_stack_read_live"), 1,
              "the stack of open query blocks is read at call time only (no module-level alias, class attribute or default argument holds the list; no alias is kept beyond a call): an evaluation rebinds the attribute"),
+        Rule("RULE-ON-ENTER", _lazy("ruletree", "rule_rule_on_enter"), 2,
+             "(shared with C12) only a RULE block opened on a query makes it a rule: a query-mode block on a rule leaves it a rule, so evaluating inside that block gives what evaluating outside gives"),
+        Rule("MEMO-ON-PULL", _lazy("lazy", "rule_memo_on_pull"), 3,
+             "(shared with C07) the source of a domain is wrapped lazily: a sub-query given as a domain is not evaluated when the variable is declared (inside the block, without the evaluation's mode override)"),
     ],
     explanation="User predicates and @symbol constructors consult the ambient mode; the result is mode-independent iff "
                 "every public entry switches the mode off around every point at which evaluation runs. That is a "
@@ -372,6 +380,10 @@ register(PropertySpec(
              "constructing MultipleSolutionFound / NoSolutionFound cannot itself raise (no keyed lookup on the rows, no next(), no assert)"),
         Rule("VALUE-IDENTITY", _lazy("extra", "rule_value_identity"), 8,
              "(shared with C20) a domain of distinct objects stays distinct: the identifier of a wrapped value is its identity, and an identifier carried in _id_ is believed only of the package's own expressions"),
+        Rule("DECL-FILTER", _lazy("predform", "rule_decl_filter"), 4,
+             "(shared with C13) a single object given as the domain is kept when it is an INSTANCE of the type (subclasses included)"),
+        Rule("NEG-TRUTH", _lazy("negation", "rule_neg_truth"), 16,
+             "(shared with C03) what a negated predicate yields is decided by its (inverted) truth, not by the truthiness of its output"),
     ],
     explanation="The three outcomes of `the` are decided by a typestate interpretation of its evaluator over the finite "
                 "state space (result None/solution, solutions consumed 0/1/>=2, _is_false_), exception classes resolved "
@@ -421,6 +433,8 @@ register(PropertySpec(
              "a concatenation reports the variables of the expression it ranges over (the per-evaluation reset of a selected concatenation reaches its parent variable through them)"),
         Rule("DECL-FILTER", _lazy("predform", "rule_decl_filter_paths"), 1,
              "(shared with C13) a variable given as the domain of another variable reaches it untouched (it is iterable, but over bindings): concatenate over every parent domain"),
+        Rule("COLLECTION-TABLE", _lazy("predform", "rule_collection_table"), 2,
+             "(shared with C13) an inner scalar that is a class object is one element"),
     ],
     explanation="Decides: exactly-one-row by counting yields over all CFG paths; and interface agreement among the "
                 "implementations of the evaluation protocol (a concatenate used where the protocol passes "
@@ -533,6 +547,8 @@ register(PropertySpec(
              "(shared with C02) a predicate-form term in a caller's list of selected variables is replaced by its variable in a copy, not in the caller's list"),
         Rule("VALUE-IDENTITY", _lazy("extra", "rule_value_identity"), 8,
              "(shared with C20) a domain of distinct objects stays distinct: the identifier of a wrapped value is its identity, and an identifier carried in _id_ is believed only of the package's own expressions"),
+        Rule("BIND-THREAD", _lazy("binding", "rule_bind_thread"), 30,
+             "(shared with C01) a nested term is evaluated under the binding of the enclosing term"),
     ],
     explanation="Decides the construction-time clauses: positional binding re-implemented by the library agrees with "
                 "Python's (finite abstract evaluation of the loop over scenario argument lists), the type filter uses "
@@ -657,6 +673,8 @@ register(PropertySpec(
              "per row of its first operand an operator either replays the cached rows of the second or evaluates it, then goes on with the next row (CFG path rule at every per-row replay site)"),
         Rule("DEDUP-TRACKERS-DISTINCT", _lazy("binding", "rule_dedup_trackers_distinct"), 2,
              "the duplicate trackers for true and for false rows of a node are two objects wherever the by-truth mapping is built"),
+        Rule("DEDUP-UNDER-ROW-TRUTH", _lazy("binding", "rule_dedup_under_row_truth"), 5,
+             "(shared with C02) a replayed row is tested for duplicates under its own truth"),
     ],
     explanation="Decides that the runtime switch governs reads and writes consistently: the asymmetric state (reads "
                 "unguarded, writes guarded) changes results because an empty lookup marks everything covered. Not "
@@ -777,6 +795,10 @@ register(PropertySpec(
              "(shared with C14) a universal variable without a domain ranges over the instances that exist when the for_all is evaluated"),
         Rule("VALUE-IDENTITY", _lazy("extra", "rule_value_identity"), 8,
              "(shared with C20) a domain of distinct objects stays distinct: the identifier of a wrapped value is its identity, and an identifier carried in _id_ is believed only of the package's own expressions"),
+        Rule("SET-ALGEBRA", _lazy("lazy", "rule_set_algebra"), 3,
+             "(shared with C02) union / difference build new sets: for_all computes its free variables as a difference of cached variable sets"),
+        Rule("BIND-THREAD", _lazy("binding", "rule_bind_thread"), 30,
+             "(shared with C01) the universal expression is evaluated under the incoming binding (a correlated universal ranges over the values of the bound variable only)"),
     ],
     explanation="Universal quantification is implemented as a running intersection; that the accumulated set can only "
                 "shrink, is seeded once and is emptied by a value with no satisfying binding is a typestate property of "
@@ -821,6 +843,8 @@ register(PropertySpec(
              "the truth flag of an operand that was evaluated as a value is not consulted (falsy values are values)"),
         Rule("MAPPING-NOT-MEMOISED", _lazy("aggregates", "rule_mapping_not_memoised"), 4,
              "(shared with C16) the mappings read the user object when they are evaluated"),
+        Rule("OPDEN", _lazy("opden", "rule_opden"), 8,
+             "(shared with C01) == True / == False build comparisons with the singleton, they are not rewritten into the truth of the expression"),
     ],
     explanation="An effect property: in which positions may a value's truthiness decide whether a row survives. The "
                 "positions are the evaluation call sites; their role is the resolved dataclass field of the receiver "
@@ -1152,6 +1176,8 @@ register(PropertySpec(
              "(shared with C01) the truth each operator assigns to a row is the truth table of its operator; the else-if tries its right side on the incoming binding when the left produced nothing"),
         Rule("FORALL-TOTAL-ROWS", _lazy("forall", "rule_forall_total_rows"), 1,
              "(shared with C10) rows of the condition are completed over ALL the variables they leave unbound before the intersection, whichever branch of an or_ produced them"),
+        Rule("REENTRANT-FLAG", _lazy("values", "rule_reentrant_flag"), 9,
+             "(shared with C01) one condition object in two operands of an and_: each evaluation of it reads the request for false rows from its own argument, so swapping the operands does not change which rows it yields"),
     ],
     explanation="Two of the six listed rewrites are decided: mirrored comparisons and contains/in_, by the OPDEN "
                 "denotation rule (C01). Commutativity/associativity of and/or, declaration/selection order and domain "
@@ -1218,6 +1244,8 @@ register(PropertySpec(
              "(shared with C05) a sub-query object used in two places: a replay from a result cache hands on the false rows exactly when the evaluation it answers asked for them"),
         Rule("OR-LEFT-TOTAL", _lazy("logic", "rule_or_left_total"), 1,
              "(shared with C18; recorded finding) the else-if offers its right side only the bindings for which its left side yielded a row: a sub-query in value position on the left of | yields none for the values it rejects"),
+        Rule("REENTRANT-FLAG", _lazy("values", "rule_reentrant_flag"), 9,
+             "(shared with C01) a sub-query object used twice in one condition: each evaluation reads the request for false rows from its own argument"),
     ],
     explanation="Decides the structural clauses of the three mechanisms the property is anchored in: (1) a quantifier node in "
                 "the middle of a tree is transparent for truth (same truth table as its conditions, request for false rows passed "
